@@ -23,6 +23,7 @@ func runC09(c *Ctx) {
 	r09_4(c, "R09.4")
 	r09_5(c, "R09.5")
 	r09_6(c, "R09.6")
+	r09_7(c, "R09.7")
 }
 
 func runC12(c *Ctx) {
@@ -528,5 +529,69 @@ func r09_6(c *Ctx, rule string) {
 				c.R.Fail(rule, c.siteName(call)+"/reorder", c.pos(call), "fs.Walk reorders entries itself")
 			}
 		}
+	}
+}
+
+// R09.7: an entry's Info() builds the stat once and hands out clones.
+func r09_7(c *Ctx, rule string) {
+	c.R.Rule(rule, "DirEntryInfo.Info: the stat is built by mkstat from the entry's own on-disk path, relative path and the walk's inode map, cached, and every call returns a clone (consumers rewrite Path/Linkname in place)")
+	fn := c.Fn(rule, "fsutil.(*DirEntryInfo).Info")
+	if fn == nil {
+		return
+	}
+	base := c.name(fn)
+	for _, call := range c.P.CallsTo(fn, "fsutil.mkstat") {
+		a := call.Common().Args
+		ok := isFieldLoad(a[0], "fsutil.DirEntryInfo.origpath") && isFieldLoad(a[1], "fsutil.DirEntryInfo.path") && isFieldLoad(a[3], "fsutil.DirEntryInfo.seenFiles") &&
+			c.DerivesFrom(a[2], func(v ssa.Value) bool { return c.isCallValueTo(v, "(io/fs.DirEntry).Info") }, 3)
+		c.R.Check(ok, rule, c.siteName(call)+"/args", c.pos(call), "mkstat(origpath, path, entry info, inode map)", "mkstat is not given the entry's (on-disk path, relative path, lstat info, inode map)")
+		c.ObErrChecked(rule+"/checked", call)
+	}
+	c.R.Floor(rule, "mkstat calls in DirEntryInfo.Info", len(c.P.CallsTo(fn, "fsutil.mkstat")), 1)
+	for _, call := range c.P.CallsTo(fn, "(io/fs.DirEntry).Info") {
+		c.ObErrChecked(rule+"/checked", call)
+	}
+	// every success return wraps a clone
+	ex := c.explorer(fn)
+	bad, good := 0, 0
+	ex.Target = func(in ssa.Instruction, st *eng.State) bool {
+		if !ex.IsSuccessReturn(in, st) {
+			return false
+		}
+		r := in.(*ssa.Return)
+		al, ok := eng.Strip(r.Results[0]).(*ssa.Alloc)
+		okc := false
+		if ok {
+			for _, v := range structLitFields(al) {
+				if c.isCallValueTo(v, "types.(*Stat).Clone", "types.(*Stat).CloneVT") {
+					okc = true
+				}
+			}
+		}
+		if okc {
+			good++
+		} else {
+			bad++
+		}
+		return false
+	}
+	ex.Run()
+	c.R.Check(bad == 0 && good > 0, rule, base+"/returns-clone", c.P.Pos(fn.Pos()), "the FileInfo returned wraps a clone of the cached stat", "Info() hands out the cached stat itself: a consumer that rewrites Path or Linkname (sender, link reset, sub-root walk) corrupts what the next consumer sees")
+	// cached: mkstat only when not yet built
+	x := c.explorer(fn)
+	as := map[string]bool{}
+	eng.Instrs(fn, func(in ssa.Instruction) {
+		bo, ok := in.(*ssa.BinOp)
+		if !ok || (bo.Op != token.EQL && bo.Op != token.NEQ) {
+			return
+		}
+		if k, isC := bo.Y.(*ssa.Const); isC && k.IsNil() && isFieldLoad(bo.X, "fsutil.DirEntryInfo.Stat") {
+			as[x.KeyAtEntry(bo)] = bo.Op == token.NEQ
+		}
+	})
+	if len(as) > 0 {
+		c.ObUnreachable(rule, base+"/built-once", fn, as, c.callPred("fsutil.mkstat"), "building the stat again", "it was built before (hard-link detection is first-seen: a second mkstat would report the entry as a link to itself)")
+	} else {
+		c.R.Fail(rule, base+"/built-once", c.P.Pos(fn.Pos()), "Info() does not cache the stat: a second call re-runs mkstat, which now finds the inode in the map and reports the entry as a hard link to itself")
 	}
 }
